@@ -196,6 +196,7 @@ def run(tier):
     rule_R7(res, prog)
     rule_R8(res, prog)
     rule_R9(res, prog)
+    rule_R10(res, prog)
     return res.finish()
 
 
@@ -751,4 +752,39 @@ def rule_R9(res, prog):
                              "tbsCertStart == NULL): a certificate with another key, the same subject and copied signature bytes is "
                              "accepted as the trusted one" % (fn.relfile, t["ln"], fn.name), file=fn.relfile, line=t["ln"])
             res.instance(rid, "%s:%s sigHash equality is backed by a TBS comparison when no digest exists" % (fn.name, t["ln"]), not reach, finding=f_)
+    res.floor(rid, 1)
+
+
+def rule_R10(res, prog):
+    """Revocation by an authenticated CRL is not undone during validation: psX509AuthenticateCRL starts by resetting
+    CRL->authenticated (and verifying consumes the signature buffer), so inside the revocation-status functions it may
+    be called only for a CRL that is not authenticated yet - under the branch fact crl->authenticated == 0.  Re-running
+    it on an authenticated CRL (e.g. against a peer-supplied issuer without cRLSign) demotes the CRL and the revoked
+    certificate passes as `revoked by an unauthenticated CRL`, which validation tolerates."""
+    from sa import cfgutil as cu
+    rid = "C03.R10"
+    res.rule(rid, "revocation check: an already authenticated CRL is never re-authenticated (call under crl->authenticated == 0)")
+    n = 0
+    for fn in sorted(prog.functions.values(), key=lambda f: f.qname):
+        if not fn.blocks or fn.name == "psX509AuthenticateCRL" or "RevokedStatus" not in fn.name:
+            continue
+        gf = None
+        for b in fn.blocks:
+            for i, ln, x in cu.block_exprs(b):
+                for m in walk(x):
+                    if m.get("k") == "call" and m.get("fn") == "psX509AuthenticateCRL" and len(m.get("a", [])) >= 2:
+                        n += 1
+                        if gf is None:
+                            gf = cu.guard_facts(fn)
+                        crl = cu.ftext(strip(m["a"][1]))
+                        facts = gf.get(b["id"], frozenset())
+                        ok = ("(%s->authenticated == 0)" % crl, True) in facts or ("%s->authenticated" % crl, False) in facts
+                        f_ = None
+                        if not ok:
+                            f_ = Finding(PROP, rid, fn.name, "authenticated CRL re-authenticated during validation",
+                                         "%s:%s %s(): psX509AuthenticateCRL(.., %s, ..) is called without the fact %s->authenticated == 0: it resets "
+                                         "the flag first, so a failing re-authentication (peer-supplied issuer, consumed signature) turns a CRL the "
+                                         "application had authenticated into an unauthenticated one and its revoked certificates are accepted" % (
+                                             fn.relfile, ln, fn.name, crl, crl), file=fn.relfile, line=ln)
+                        res.instance(rid, "%s:%s psX509AuthenticateCRL(%s) under %s->authenticated == 0" % (fn.name, ln, crl, crl), ok, finding=f_)
     res.floor(rid, 1)
